@@ -107,15 +107,13 @@ pub open spec fn retention_step(w0: Worker, t: Trail, limit: int) -> bool {
 // (2a) the candidate is kept: nothing is created. If the set was listed in this run (the candidate is its NEWEST file,
 // re-opened) retention still applies: the re-opened file counts towards the limit, so afterwards the set holds AT MOST
 // max_files files, the re-opened one among them (C11 "after every batch the set holds at most the configured maximum
-// ... for all pre-existing directory contents"; F22)
+// ... for all pre-existing directory contents"; F31)
 pub open spec fn kept_ok(w0: Worker, t: Trail, strict: bool) -> bool {
     &&& t.file == t.cand
     &&& if w0.active_file is None {
             ||| { &&& t.set_roll == t.set_open && t.l_listed == t.l_open
                   &&& retention_step(w0, t, sat_add1(keep_limit(w0)))
                   &&& 1 <= t.set_kept.len() <= keep_limit(w0) }
-            // (the tree before F22: no retention on this path)
-            ||| !strict && t.l_roll == t.l_open
         } else { t.l_roll == t.l_open }
 }
 // (2b) roll: a new file
@@ -233,7 +231,7 @@ pub open spec fn on_batch_post(w0: Worker, w1: Worker, b0: EventBatch, l0: Seq<F
         let ghost g_keep = file is Some;
 //@closure 4
     -> (r: io::Error) ensures true
-// every retention run (the roll branch; since F22 also a re-opened file that is kept): the list it starts from and
+// every retention run (the roll branch; since F31 also a re-opened file that is kept): the list it starts from and
 // what it leaves; the id drawn for the new name
 //@before-each mcall apply_retention
             proof { t.set_roll = file_set.file_set@; t.l_listed = tr.log; }
